@@ -39,6 +39,9 @@ CHECKS = {
  "C01": dict(design="§3 C01", engine="XH+ATN",
              technique="skeleton + holes: real lexer/parser concretely, real ParseTreeWalker + ZorgFileCompiler under CrossHair (z3) with symbolic token texts, oracle from the abstract page; z3 regex inclusion of the hole classes on the real lexer ATN",
              note="stubs: strptime model, clock, loggers; skeleton set is the bound (110 core + layout-token + seeded multi-item pages); hole texts bounded"),
+ "C02": dict(design="§3 C02", engine="XH",
+             technique="skeleton + holes on decorated section skeletons (all legal header sequences up to the bound): real walker + ZorgFileCompiler under CrossHair (z3) with a menu-valued name symbolic, every note compared with the inheritance oracle",
+             note="stubs: strptime model, clock, loggers; header sequences and name menus are the bound"),
 }
 NA = {
  "C13": "crash points between external effects (SQLite transactions, OS file writes) cannot be made symbolic: the effects are C-level/ORM internals; with them concrete a symbolic crash index is realised at the first effect, which is enumeration of faulted runs, a different technique (DESIGN.md §8)",
